@@ -1,6 +1,14 @@
 //! Configuration and builders for [`crate::Watchexec`].
 
-use std::{future::Future, pin::pin, sync::Arc, time::Duration};
+use std::{
+	future::Future,
+	pin::pin,
+	sync::{
+		atomic::{AtomicU64, Ordering},
+		Arc,
+	},
+	time::Duration,
+};
 
 use tokio::sync::Notify;
 use tracing::{debug, trace};
@@ -33,6 +41,10 @@ pub struct Config {
 	/// This is set by the change methods whenever they're called, and notifies Watchexec that it
 	/// should read the configuration again.
 	pub(crate) change_signal: Arc<Notify>,
+
+	/// Number of changes signalled so far, so that a change made while a worker is busy applying
+	/// the previous one is not missed.
+	pub(crate) change_count: Arc<AtomicU64>,
 
 	/// The main handler to define: what to do when an action is triggered.
 	///
@@ -159,6 +171,7 @@ impl Default for Config {
 	fn default() -> Self {
 		Self {
 			change_signal: Default::default(),
+			change_count: Default::default(),
 			action_handler: ChangeableFn::new(ActionReturn::Sync),
 			error_handler: Default::default(),
 			pathset: Default::default(),
@@ -182,6 +195,7 @@ impl Config {
 		reason = "this return can explicitly be ignored"
 	)]
 	pub fn signal_change(&self) -> &Self {
+		self.change_count.fetch_add(1, Ordering::SeqCst);
 		self.change_signal.notify_waiters();
 		self
 	}
@@ -192,7 +206,7 @@ impl Config {
 	/// subsequent one is from a change signal for this Config.
 	#[must_use]
 	pub(crate) fn watch(&self) -> ConfigWatched {
-		ConfigWatched::new(self.change_signal.clone())
+		ConfigWatched::new(self.change_signal.clone(), self.change_count.clone())
 	}
 
 	/// Set the pathset to be watched.
@@ -273,16 +287,20 @@ impl Config {
 pub(crate) struct ConfigWatched {
 	first_run: bool,
 	notify: Arc<Notify>,
+	count: Arc<AtomicU64>,
+	seen: u64,
 }
 
 impl ConfigWatched {
-	fn new(notify: Arc<Notify>) -> Self {
+	fn new(notify: Arc<Notify>, count: Arc<AtomicU64>) -> Self {
 		let notified = notify.notified();
 		pin!(notified).as_mut().enable();
 
 		Self {
 			first_run: true,
 			notify,
+			seen: count.load(Ordering::SeqCst),
+			count,
 		}
 	}
 
@@ -291,14 +309,18 @@ impl ConfigWatched {
 		let mut notified = pin!(notified);
 		notified.as_mut().enable();
 
+		// changes made after the previous Notified resolved but before this one was issued are
+		// caught by comparing the change counter with the last value seen
+		let count = self.count.load(Ordering::SeqCst);
 		if self.first_run {
 			trace!("ConfigWatched: first run");
 			self.first_run = false;
+		} else if count != self.seen {
+			trace!("ConfigWatched: config changed while busy");
 		} else {
 			trace!(?notified, "ConfigWatched: waiting for change");
-			// there's a bit of a gotcha where any config changes made after a Notified resolves
-			// but before a new one is issued will not be caught. not sure how to fix that yet.
 			notified.await;
 		}
+		self.seen = self.count.load(Ordering::SeqCst);
 	}
 }
